@@ -42,6 +42,15 @@ static blk_t *h_take(void *p) {
   if (!*pp) return NULL;
   blk_t *b = *pp; *pp = b->next; h_live_blocks--; return b;
 }
+/* size the ledger holds for a live block, or (size_t)-1 if `p` is not a live block (used by printf ops:
+   gmp_asprintf must hand back a block of exactly length+1 bytes) */
+size_t h_block_size(void *p) {
+  size_t r = (size_t)-1;
+  LOCK();
+  for (blk_t *b = htab[hidx(p)]; b; b = b->next) if (b->p == p) { r = b->sz; break; }
+  UNLOCK();
+  return r;
+}
 static void h_free_nl(void *p, size_t sz) {
   h_free_calls++;
   blk_t *b = h_take(p);
@@ -163,7 +172,7 @@ static int parse_tok(char *s, tok_t *t) {
     if (s[len - 1] != ']') return -1;
     t->kind = T_VEC; s[len - 1] = 0; s++;
     long cnt = 0; for (char *p = s; *p; p++) if (*p == ',') cnt++;
-    t->d = calloc(cnt + 2, sizeof(mp_limb_t)); t->n = 0;
+    t->d = calloc(cnt + 1 > 1 ? cnt + 1 : 1, sizeof(mp_limb_t)); t->n = 0;   /* exact size (cnt+1 limbs): an over-read is visible to ASan */
     if (!*s) return 0;
     char *save, *p = strtok_r(s, ",", &save);
     while (p) { if (strlen(p) > 16 || !*p) return -1; mp_limb_t v = 0; for (; *p; p++) { int h = hexv(*p); if (h < 0) return -1; v = v << 4 | h; } t->d[t->n++] = v; p = strtok_r(NULL, ",", &save); }
